@@ -66,21 +66,56 @@ def pending (p : Prog) (s : VM) : Option Nat :=
   | some .map, .int .int size :: rest => if 0 ≤ size ∧ 2 * size.toNat ≤ rest.length then some size.toNat else none
   | _, _ => none
 
+theorem popN_stack_len : ∀ (n : Nat) (s : VM) (acc l : List Val) (s' : VM),
+    VM.popN n s acc = .ok (l, s') → s.stack.length = n + s'.stack.length
+  | 0, s, acc, l, s', h => by
+    unfold VM.popN at h; injection h with h; injection h with _ hs; subst hs; simp
+  | n + 1, s, acc, l, s', h => by
+    unfold VM.popN at h
+    cases h1 : s.pop with
+    | error e => rw [h1] at h; cases h
+    | ok x =>
+      obtain ⟨v, s1⟩ := x
+      rw [h1] at h
+      simp only [bind, Except.bind] at h
+      have := popN_stack_len n s1 (v :: acc) l s' h
+      rw [pop_stack h1, List.length_cons, this]; omega
+
+/-- an instruction that is not one of the three allocating ones has nothing pending -/
+theorem pending_none {p : Prog} {s : VM} {op : Op} (hop : Op.ofCode? (p.code[s.ip]?.getD 255) = some op)
+    (h1 : op ≠ .range) (h2 : op ≠ .array) (h3 : op ≠ .map) : pending p s = none := by
+  unfold pending
+  rw [hop]
+  cases op <;> first | rfl | contradiction
+
+/-- `pending` is only defined at a position inside the bytecode -/
+theorem pending_in_range {p : Prog} {s : VM} {k : Nat} (h : pending p s = some k) : s.ip < p.code.size := by
+  apply Classical.byContradiction
+  intro hn
+  have h0 : p.code[s.ip]? = none := Array.getElem?_eq_none (by omega)
+  have : pending p s = none := by
+    unfold pending
+    rw [h0]
+    rfl
+  rw [this] at h; cases h
+
 /-- what one successful step does to the accounting (range sizes counted unsigned) -/
-structure StepOk (s s' : VM) : Prop where
+structure StepOk (p : Prog) (s s' : VM) : Prop where
   limit : s'.limit = s.limit
   delta : s'.memory - s.memory = (s'.created : Int) - (s.created : Int)
   mono : s.created ≤ s'.created
   below : s'.created = s.created ∨ s'.memory < s'.limit
+  /-- an allocating instruction that succeeds has created exactly the pending elements and stays below the limit -/
+  alloc : ∀ k, pending p s = some k → s'.created = s.created + k ∧ s'.memory < s'.limit
 
-/-- how a step is refused for budget reasons -/
+/-- how a step is refused for budget reasons: `k` is the number of elements the instruction was about to create -/
 inductive Refusal (p : Prog) (s s' : VM) : Prop
-  /-- the range of `k` elements the instruction was about to build is refused *before* it is built:
-      nothing is counted, `memory + k` would reach the limit -/
+  /-- a range of `k` elements is refused *before* it is built: nothing is counted, `memory + k` would reach the limit -/
   | before (k : Nat) (hp : pending p s = some k) (hm : s'.memory = s.memory) (hc : s'.created = s.created)
       (h : s.memory + k ≥ s.limit)
   /-- an array / map of `k` elements fails *after* it was built and counted: the counter has reached the limit -/
-  | after (k : Nat) (hm : s'.memory = s.memory + k) (hc : s'.created = s.created + k) (h : s'.memory ≥ s.limit)
+  | after (k : Nat) (hp : pending p s = some k) (hm : s'.memory = s.memory + k) (hc : s'.created = s.created + k)
+      (h : s'.memory ≥ s.limit)
 
 structure StepErr (p : Prog) (s : VM) (e : ErrClass) (s' : VM) : Prop where
   limit : s'.limit = s.limit
@@ -88,8 +123,9 @@ structure StepErr (p : Prog) (s : VM) (e : ErrClass) (s' : VM) : Prop where
   mono : s.created ≤ s'.created
   budget : e = .budget → Refusal p s s'
 
-theorem StepOk.ofFrame {s s' : VM} (h : Frame s s') : StepOk s s' :=
-  ⟨h.2.2, by rw [h.1, h.2.1]; omega, by rw [h.2.1]; exact Nat.le_refl _, .inl h.2.1⟩
+theorem StepOk.ofFrame {p : Prog} {s s' : VM} (h : Frame s s') (hp : pending p s = none) : StepOk p s s' :=
+  ⟨h.2.2, by rw [h.1, h.2.1]; omega, by rw [h.2.1]; exact Nat.le_refl _, .inl h.2.1,
+   fun k hk => by rw [hp] at hk; cases hk⟩
 
 theorem StepErr.ofFrame {p : Prog} {s s' : VM} {e} (h : FrameErr s e s') : StepErr p s e s' :=
   ⟨h.1.2.2, by rw [h.1.1, h.1.2.1]; omega, by rw [h.1.2.1]; exact Nat.le_refl _, fun he => absurd he h.2⟩
@@ -97,8 +133,9 @@ theorem StepErr.ofFrame {p : Prog} {s s' : VM} {e} (h : FrameErr s e s') : StepE
 theorem Sat.weakenErr {α} {m : RV α} {okP : α → Prop} {p : Prog} {s0 : VM} (h : Sat m okP (FrameErr s0)) : Sat m okP (StepErr p s0) :=
   Sat.mono h (fun _ h => h) (fun _ _ h => StepErr.ofFrame h)
 
+/-- **The accounting effect of one step, for every opcode and every program.** -/
 theorem step_sat (c : Cfg) (hr : c.defects.rangeSizeSigned = false) (hw : WorldNB c.world) (p s) :
-    Sat (step c p s) (StepOk s) (StepErr p s) := by
+    Sat (step c p s) (StepOk p s) (StepErr p s) := by
   unfold step
   simp only []
   split
@@ -130,7 +167,7 @@ theorem step_sat (c : Cfg) (hr : c.defects.rangeSizeSigned = false) (hw : WorldN
         refine .before (rangeElems lo hi).length hpend h1 h2 ?_
         rw [← h1, ← h3]; exact hge
       · rename_i hlt
-        refine ⟨h3, ?_, ?_, ?_⟩
+        refine ⟨h3, ?_, ?_, ?_, ?_⟩
         · show s1.memory + _ - s.memory = ((s1.created + (rangeElems lo hi).length : Nat) : Int) - s.created
           rw [Int.natCast_add, h1, h2]; omega
         · show s.created ≤ s1.created + _
@@ -138,19 +175,33 @@ theorem step_sat (c : Cfg) (hr : c.defects.rangeSizeSigned = false) (hw : WorldN
         · right
           show s1.memory + _ < s1.limit
           omega
+        · intro k hk
+          rw [hpend] at hk; injection hk with hk; subst hk
+          refine ⟨?_, ?_⟩
+          · show s1.created + _ = _
+            rw [h2]
+          · show s1.memory + _ < s1.limit
+            omega
     case h_44 =>
-      refine Sat.bind (Sat.weakenErr (sat_pop ⟨rfl, rfl, rfl⟩)) ?_
-      intro x hx
+      refine Sat.bind_eq (Sat.weakenErr (sat_pop ⟨rfl, rfl, rfl⟩)) ?_
+      intro x hpop hx
       obtain ⟨n, s1⟩ := x
+      have hstack : s.stack = n :: s1.stack := pop_stack (s := { s with pp := s.ip, ip := s.ip + 1 }) hpop
       dsimp only at hx ⊢
       split
       · rename_i size
         split
         · exact Sat.weakenErr (sat_failV hx (by decide))
         · rename_i hneg
-          refine Sat.bind (Sat.weakenErr (sat_popN size.toNat [] hx)) ?_
-          intro y hy
+          refine Sat.bind_eq (Sat.weakenErr (sat_popN size.toNat [] hx)) ?_
+          intro y hpopN hy
           obtain ⟨elems, s2⟩ := y
+          have hdepth := popN_stack_len _ _ _ _ _ hpopN
+          have hpend : pending p s = some size.toNat := by
+            unfold pending
+            rw [hop, hstack]
+            simp only []
+            rw [if_pos ⟨by omega, by omega⟩]
           obtain ⟨⟨h1, h2, h3⟩, hl⟩ := hy
           dsimp only at h1 h2 h3 hl
           simp only [List.length_nil, Nat.add_zero] at hl
@@ -163,7 +214,7 @@ theorem step_sat (c : Cfg) (hr : c.defects.rangeSizeSigned = false) (hw : WorldN
               rw [Int.natCast_add, h1, h2, hl]; omega
             · show s.created ≤ s2.created + _
               omega
-            · refine .after size.toNat ?_ ?_ ?_
+            · refine .after size.toNat hpend ?_ ?_ ?_
               · show s2.memory + size = s.memory + _
                 rw [h1]; omega
               · show s2.created + elems.length = s.created + _
@@ -172,7 +223,7 @@ theorem step_sat (c : Cfg) (hr : c.defects.rangeSizeSigned = false) (hw : WorldN
                 rw [← h3]; exact hge
           · rename_i hge
             dsimp only [VM.push] at hge
-            refine ⟨h3, ?_, ?_, ?_⟩
+            refine ⟨h3, ?_, ?_, ?_, ?_⟩
             · show s2.memory + size - s.memory = ((s2.created + elems.length : Nat) : Int) - s.created
               rw [Int.natCast_add, h1, h2, hl]; omega
             · show s.created ≤ s2.created + _
@@ -180,20 +231,34 @@ theorem step_sat (c : Cfg) (hr : c.defects.rangeSizeSigned = false) (hw : WorldN
             · right
               show s2.memory + size < s2.limit
               omega
+            · intro k hk
+              rw [hpend] at hk; injection hk with hk; subst hk
+              refine ⟨?_, ?_⟩
+              · show s2.created + elems.length = _
+                rw [h2, hl]
+              · show s2.memory + size < s2.limit
+                omega
       · exact Sat.weakenErr (sat_failV hx (by decide))
     case h_45 =>
-      refine Sat.bind (Sat.weakenErr (sat_pop ⟨rfl, rfl, rfl⟩)) ?_
-      intro x hx
+      refine Sat.bind_eq (Sat.weakenErr (sat_pop ⟨rfl, rfl, rfl⟩)) ?_
+      intro x hpop hx
       obtain ⟨n, s1⟩ := x
+      have hstack : s.stack = n :: s1.stack := pop_stack (s := { s with pp := s.ip, ip := s.ip + 1 }) hpop
       dsimp only at hx ⊢
       split
       · rename_i size
         split
         · exact Sat.weakenErr (sat_failV hx (by decide))
         · rename_i hneg
-          refine Sat.bind (Sat.weakenErr (sat_popN' hx)) ?_
-          intro y hy
+          refine Sat.bind_eq (Sat.weakenErr (sat_popN' hx)) ?_
+          intro y hpopN hy
           obtain ⟨flat, s2⟩ := y
+          have hdepth := popN_stack_len _ _ _ _ _ hpopN
+          have hpend : pending p s = some size.toNat := by
+            unfold pending
+            rw [hop, hstack]
+            simp only []
+            rw [if_pos ⟨by omega, by omega⟩]
           refine Sat.bind (Sat.weakenErr (sat_liftR hy (nb_buildMap _))) ?_
           intro m _
           obtain ⟨h1, h2, h3⟩ := hy
@@ -207,7 +272,7 @@ theorem step_sat (c : Cfg) (hr : c.defects.rangeSizeSigned = false) (hw : WorldN
               rw [Int.natCast_add, h1, h2]; omega
             · show s.created ≤ s2.created + _
               omega
-            · refine .after size.toNat ?_ ?_ ?_
+            · refine .after size.toNat hpend ?_ ?_ ?_
               · show s2.memory + size = s.memory + _
                 rw [h1]; omega
               · show s2.created + size.toNat = s.created + _
@@ -216,7 +281,7 @@ theorem step_sat (c : Cfg) (hr : c.defects.rangeSizeSigned = false) (hw : WorldN
                 rw [← h3]; exact hge
           · rename_i hge
             dsimp only [VM.push] at hge
-            refine ⟨h3, ?_, ?_, ?_⟩
+            refine ⟨h3, ?_, ?_, ?_, ?_⟩
             · show s2.memory + size - s.memory = ((s2.created + size.toNat : Nat) : Int) - s.created
               rw [Int.natCast_add, h1, h2]; omega
             · show s.created ≤ s2.created + _
@@ -224,7 +289,17 @@ theorem step_sat (c : Cfg) (hr : c.defects.rangeSizeSigned = false) (hw : WorldN
             · right
               show s2.memory + size < s2.limit
               omega
+            · intro k hk
+              rw [hpend] at hk; injection hk with hk; subst hk
+              refine ⟨?_, ?_⟩
+              · show s2.created + size.toNat = _
+                rw [h2]
+              · show s2.memory + size < s2.limit
+                omega
       · exact Sat.weakenErr (sat_failV hx (by decide))
-    all_goals (refine Sat.weakenErr (Sat.mono ?_ (fun _ h => StepOk.ofFrame h) (fun _ _ h => h)); (repeat' sat_step))
+    all_goals (
+      refine Sat.weakenErr (Sat.mono ?_
+        (fun _ h => StepOk.ofFrame h (pending_none hop (by decide) (by decide) (by decide))) (fun _ _ h => h))
+      (repeat' sat_step))
 
 end ExprModel
